@@ -463,23 +463,38 @@ def behaviour_leg(chk):
             chk.broke('harness h_%s does not build header-only with %s: %s' % (n, ' '.join(USER_FLAGS[t]), err), {'kind': 'behaviour-build', 'error': err})
     n_cmp, n_diff = 0, 0
 
+    def status(rc):
+        return ('exit %d' % rc) if rc >= 0 else ('signal %d' % -rc)
+
     def run(exe, n, lines):
         if lines is None:
             d = tempfile.mkdtemp(prefix='c20_hb_')
             try:
-                rc, so, se = vlib.sh([exe, d], timeout=120)
-                return so.splitlines(), se
+                rc, so, se = vlib.sh([exe, d], timeout=300)
+                return so.splitlines(), se, status(rc)
             finally:
                 shutil.rmtree(d, ignore_errors=True)
-        rc, o, e = vlib.run_lines(exe, lines, timeout=300)
-        return o, e
+        rc, o, e = vlib.run_lines(exe, lines, timeout=600)
+        return o, e, status(rc)
     dups = None
     for n in names:
         lines, canon = corp[n]
-        o_lib, e1 = run(exes[n][0], n, lines)
+        o_lib, e1, st_lib = run(exes[n][0], n, lines)
         want = len(lines) if lines is not None else len(o_lib)
         for label, exe in variants[n]:
-            o_hdr, e2 = run(exe, n, lines)
+            o_hdr, e2, st_hdr = run(exe, n, lines)
+            if st_lib != st_hdr and 'exit 124' not in (st_lib, st_hdr):
+                # the process itself ends differently (crash / other exit status): the answers it managed to print are secondary
+                n_diff += 1
+                k = next((i for i, (a_, b_) in enumerate(zip(o_lib, o_hdr)) if canon(a_) != canon(b_)), min(len(o_lib), len(o_hdr)))
+                chk.fail('harness h_%s ends differently in the %s build: library %s after %d answers, header-only %s after %d answers'
+                         % (n, label, st_lib, len(o_lib), st_hdr, len(o_hdr)),
+                         {'kind': 'header-only-behaviour-differs', 'harness': 'h_' + n, 'build': label, 'library_status': st_lib, 'header_only_status': st_hdr,
+                          'first_differing_or_missing_answer': k, 'input_line': (lines[k] if lines is not None and k < len(lines) else None),
+                          'stderr_library': e1[-300:], 'stderr_header_only': e2[-300:],
+                          'how': 'build/h_%s vs %s on the same input' % (n, os.path.basename(exe))},
+                         kind='header-only-behaviour-differs')
+                continue
             if len(o_lib) != want or len(o_hdr) != want or want == 0:
                 chk.broke('harness h_%s did not answer every input (library %d, %s %d of %d)' % (n, len(o_lib), label, len(o_hdr), want),
                           {'kind': 'behaviour-harness', 'harness': n, 'stderr': (e1 + e2)[-400:]})
@@ -535,6 +550,237 @@ def behaviour_leg(chk):
     if notes:
         chk.cov['behaviour_build_notes'] = notes
     return n_cmp
+
+
+# ---- whole-process behaviour: the same PROGRAM (harness/h_header_exit.cpp) built against the library and header-only;
+#      compared after the process ended: exit status / signal, stdout, stderr, the files it left ------------------------
+N_TEMPLATES = 7          # kTemplates in harness/h_header_exit.cpp
+EARLY_OPS = ('fs', 'rs', 'cfg', 'stf', 'log', 'clog', 'flush', 'own', 'pat', 'restore')
+
+
+def prog_text(p):
+    return ','.join(p['early']) + '/' + ','.join(p['main']) + '/' + p['end']
+
+
+def prog_of_text(s):
+    e, m, end = (s.split('/') + ['', '', ''])[:3]
+    return {'early': [x for x in e.split(',') if x], 'main': [x for x in m.split(',') if x], 'end': end or 'ret:0'}
+
+
+def op_kinds(ops):
+    return ','.join(o.split(':')[0] for o in ops)
+
+
+def random_op(rng, early):
+    k = rng.choice(['fs', 'fs', 'rs', 'cfg', 'cfg', 'stf', 'log', 'log', 'log', 'clog', 'flush', 'own', 'pat', 'restore'] + ([] if early else ['app', 'app']))
+    t = rng.randrange(N_TEMPLATES)
+    if k == 'fs':
+        return 'fs:%d:%d:%d' % (t, rng.choice([0, 1, 1, 2, 3, 5]), rng.choice([0, 0, 1, 2]))
+    if k == 'rs':
+        return 'rs:%d:%d:%d:%d:%d' % (t, rng.choice([0, 30, 60, 200, 100000]), rng.choice([0, 2, 3]), rng.choice([0, 1, 3, 8]), rng.choice([0, 0, 1, 2]))
+    if k == 'cfg':
+        big = rng.random() < 0.5
+        return 'cfg:%d:%d:%d:%d' % (t, 0 if big else rng.choice([80, 200, 100000]), rng.choice([0, 2, 3]), 0 if big else rng.choice([0, 0, 1, 2]))
+    if k == 'stf':
+        return 'stf:%d' % t
+    if k in ('log', 'clog'):
+        return '%s:%d' % (k, rng.choice([1, 2, 3, 3, 5, 9]))
+    if k == 'own':
+        return 'own:%d:%d' % (t, rng.choice([0, 1, 3]))
+    if k == 'pat':
+        return 'pat:%d' % rng.randrange(3)
+    return k
+
+
+def exit_programs(chk, n_random):
+    """fixed programs (the idioms of the README: one-line configure, fluent sendToFile, a sink set up by a global object)
+    followed by random ones"""
+    base = ['/app,cfg:0:0:0:0,log:3/ret:0',              # configure(file), a few lines, return from main, no flush
+            '/cfg:0:0:0:0,log:2/exit:0',                 # ... std::exit, no application object
+            '/app,stf:0,log:3/ret:0', '/stf:1,log:1,clog:2/exit:3',
+            '/app,cfg:0:80:3:0,log:9/ret:0',             # rotating file
+            'fs:1:1:1//ret:0',                           # file sink created and used before main()
+            'fs:0:2:0//ret:0', 'rs:2:60:2:3:0//ret:0',   # ... not flushed, kept until static destruction
+            'cfg:0:0:0:0/app,log:3/ret:0',               # logging configured by a global object, used from main
+            'cfg:0:0:0:0,log:2/app,log:1/ret:0',         # ... and used by that global object itself
+            'stf:3/log:2/exit:1', 'stf:0,log:2/app,log:1/ret:0',
+            'own:0:2/own:4:1/ret:0', 'pat:0,pat:1/pat:2/ret:7',
+            '/stf:0,log:2/fatal', '/app,cfg:0:0:0:0,log:1/fatal', '/stf:0,log:3/qexit:2', 'stf:0,log:1,eexit:4//ret:0',
+            '/stf:0,log:1,restore,log:1/ret:0', '/app,cfg:5:0:0:0,log:1,flush,log:1/ret:0']
+    progs = [prog_of_text(b) for b in base]
+    rng = chk.rng
+    for _ in range(n_random):
+        early = [random_op(rng, True) for _ in range(rng.choice([0, 0, 1, 1, 2, 3]))]
+        # messages sent to a CONSOLE sink before main() are one specific class (the configure() pipeline writes to std::cerr):
+        # keep most programs clear of it so that it does not mask everything else
+        if any(o.startswith('cfg') for o in early) and rng.random() < 0.8:
+            early = [o for o in early if not o.startswith(('log', 'clog'))]
+        main = [random_op(rng, False) for _ in range(rng.choice([0, 1, 2, 2, 3, 4]))]
+        end = rng.choice(['ret:0', 'ret:0', 'ret:0', 'ret:5', 'exit:0', 'exit:0', 'exit:2', 'fatal', 'qexit:1'])
+        if rng.random() < 0.05 and early:
+            early.append('eexit:%d' % rng.choice([0, 6]))
+        progs.append({'early': early, 'main': main, 'end': end})
+    return progs
+
+
+def _no_core():
+    try:
+        import resource
+        resource.setrlimit(resource.RLIMIT_CORE, (0, 0))
+    except Exception:
+        pass
+
+
+def canon_text(b):
+    s = b.decode('utf-8', 'replace') if isinstance(b, bytes) else b
+    return re.sub(r'\d+', '#', s)
+
+
+def run_program(exe, prog, timeout=180):
+    """one process; the observation a user can make after it ended"""
+    d = tempfile.mkdtemp(prefix='c20_x_')
+    try:
+        env = dict(os.environ, C20_DIR=os.path.join(d, 'w'), C20_PROG=prog_text(prog), LC_ALL='C')
+        status = None
+        for attempt in range(2):
+            shutil.rmtree(os.path.join(d, 'w'), ignore_errors=True)
+            try:
+                p = subprocess.run([exe], env=env, stdin=subprocess.DEVNULL, stdout=subprocess.PIPE, stderr=subprocess.PIPE,
+                                   timeout=timeout * (attempt + 1), preexec_fn=_no_core)
+                rc, so, se = p.returncode, p.stdout, p.stderr
+                status = ('exit %d' % rc) if rc >= 0 else ('signal %d' % -rc)
+                break
+            except subprocess.TimeoutExpired as ex:
+                so, se, status = ex.stdout or b'', ex.stderr or b'', 'still running after %d s' % (timeout * (attempt + 1))
+        files = []
+        w = os.path.join(d, 'w')
+        for dp, _, fs in os.walk(w):
+            for f in fs:
+                full = os.path.join(dp, f)
+                files.append((os.path.relpath(full, w), open(full, 'rb').read()))
+        files.sort()
+        return {'status': status, 'stdout': canon_text(so), 'stderr': canon_text(se),
+                'files': [[canon_text(n), canon_text(c)] for n, c in files]}
+    finally:
+        shutil.rmtree(d, ignore_errors=True)
+
+
+def obs_diff(a, b):
+    """aspects in which two observations differ"""
+    return [k for k in ('status', 'stdout', 'stderr', 'files') if a[k] != b[k]]
+
+
+def simplify_ops(prog, differs):
+    """after the list shrink: smaller parameters (plain file name, one message, no rotation), clog -> log, plain return"""
+    cur = prog
+
+    def attempt(cand):
+        nonlocal cur
+        if cand != cur and differs(cand):
+            cur = cand
+            return True
+        return False
+    # (field index, smaller value) per op kind; every candidate is built from the CURRENT op
+    smaller = {'log': [(1, '1')], 'clog': [(0, 'log'), (1, '1')], 'stf': [(1, '0')], 'own': [(1, '0'), (2, '0'), (2, '1')],
+               'cfg': [(1, '0'), (4, '0'), (2, '0'), (3, '0')], 'fs': [(1, '0'), (2, '0'), (2, '1'), (3, '2'), (3, '1')],
+               'rs': [(1, '0'), (2, '0'), (3, '0'), (4, '0'), (4, '1'), (5, '2'), (5, '1')], 'pat': [(1, '0')]}
+    for ph in ('early', 'main'):
+        for i in range(len(cur[ph])):
+            for idx, val in smaller.get(cur[ph][i].split(':')[0], []):
+                f = cur[ph][i].split(':')
+                mode_field = (f[0] == 'fs' and idx == 3) or (f[0] == 'rs' and idx == 5)
+                if idx >= len(f) or f[idx] == val or (idx > 0 and not mode_field and int(f[idx]) < int(val)) or (mode_field and f[idx] == '2'):
+                    continue
+                f[idx] = val
+                c = dict(cur)
+                c[ph] = cur[ph][:i] + [':'.join(f)] + cur[ph][i + 1:]
+                attempt(c)
+    if cur['end'] != 'ret:0' and not attempt(dict(cur, end='ret:0')) and cur['end'] != 'exit:0':
+        attempt(dict(cur, end='exit:0'))
+    return cur
+
+
+def shrink_program(prog, differs):
+    cur = dict(prog)
+    for _ in range(2):
+        for ph in ('early', 'main'):
+            cur[ph] = vlib.shrink_list(cur[ph], lambda ops: differs(dict(cur, **{ph: ops})), max_steps=40)
+        cur = simplify_ops(cur, differs)
+    return cur
+
+
+def describe_obs(o):
+    return {'status': o['status'], 'stdout': o['stdout'][-600:], 'stderr': o['stderr'][-600:],
+            'files': [{'name': n, 'lines': c.count('\n'), 'content': c[-500:]} for n, c in o['files'][:8]]}
+
+
+def process_leg(chk):
+    """header-only users get precisely the behaviour of the library build - as whole processes: programs that set logging up
+    from a global object's constructor (before main), that leave main / call exit without flushing, that die in qFatal"""
+    try:
+        exes = build_variants(['header_exit'])['header_exit']
+    except RuntimeError as e:
+        chk.fail('the whole-process harness does not build header-only (or against the library): ' + str(e)[-400:],
+                 {'kind': 'header-only-build-fails', 'log': str(e)[-1500:]}, kind='header-only-build-fails')
+        return 0
+    thorough = chk.tier == 'thorough'
+    variants = [('header-only', exes[1])]
+    for t in ['userflags'] + (['O0'] if thorough else []):
+        exe, err = build_user_variant('header_exit', t)
+        if exe:
+            variants.append(('header-only ' + ' '.join(USER_FLAGS[t]), exe))
+        else:
+            chk.broke('harness h_header_exit does not build header-only with %s: %s' % (' '.join(USER_FLAGS[t]), err), {'kind': 'behaviour-build', 'error': err})
+    progs = exit_programs(chk, 150 if thorough else 24)
+    jobs = [(pi, vi) for pi in range(len(progs)) for vi in range(-1, len(variants))]
+
+    def one(j):
+        pi, vi = j
+        return run_program(exes[0] if vi < 0 else variants[vi][1], progs[pi])
+    with concurrent.futures.ThreadPoolExecutor(max_workers=min(8, vlib.NCPU)) as ex:
+        res = dict(zip(jobs, ex.map(one, jobs)))
+    hist = {'programs': len(progs), 'with_early_phase': sum(1 for p in progs if p['early']), 'endings': {}, 'op_kinds': {},
+            'library_statuses': {}, 'programs_leaving_nonempty_files': 0, 'early_phase_creating_file_sinks': 0}
+    for pi, p in enumerate(progs):
+        hist['endings'][p['end'].split(':')[0]] = hist['endings'].get(p['end'].split(':')[0], 0) + 1
+        for o in p['early'] + p['main']:
+            hist['op_kinds'][o.split(':')[0]] = hist['op_kinds'].get(o.split(':')[0], 0) + 1
+        st = res[(pi, -1)]['status']
+        hist['library_statuses'][st] = hist['library_statuses'].get(st, 0) + 1
+        hist['programs_leaving_nonempty_files'] += 1 if any(c for _, c in res[(pi, -1)]['files']) else 0
+        hist['early_phase_creating_file_sinks'] += 1 if any(o.startswith(('fs', 'rs', 'cfg', 'stf', 'own')) for o in p['early']) else 0
+    n_diff, reported = 0, {}
+    for pi, p in enumerate(progs):
+        for vi, (label, exe) in enumerate(variants):
+            a, b = res[(pi, -1)], res[(pi, vi)]
+            if not obs_diff(a, b):
+                continue
+            n_diff += 1
+            if len(reported) >= 4 or (vi > 0 and obs_diff(a, res[(pi, 0)])):
+                continue            # the plain header-only build already differs on this program
+            small = shrink_program(p, lambda q: bool(obs_diff(run_program(exes[0], q), run_program(exe, q))))
+            oa, ob = run_program(exes[0], small), run_program(exe, small)
+            if not obs_diff(oa, ob):      # not reproducible: report the original program, as found
+                small, oa, ob = p, a, b
+            cls = (op_kinds(small['early']), op_kinds(small['main']), small['end'].split(':')[0], oa['status'], ob['status'], ','.join(obs_diff(oa, ob)))
+            if cls in reported:
+                continue
+            reported[cls] = True
+            rep = {'kind': 'header-only-process-behaviour-differs', 'program': prog_text(small), 'build': label,
+                   'early_op_kinds': cls[0], 'main_op_kinds': cls[1], 'ending': cls[2], 'library_status': cls[3], 'header_only_status': cls[4],
+                   'differs_in': cls[5], 'library': describe_obs(oa), 'header_only': describe_obs(ob), 'found_as': prog_text(p),
+                   'how': "C20_DIR=$(mktemp -d) C20_PROG='%s' build/h_header_exit   vs   build/%s   (program syntax: harness/h_header_exit.cpp)"
+                          % (prog_text(small), os.path.basename(exe))}
+            chk.fail('the %s build of the program %r behaves differently from the library build of the same program (%s): library: %s, %s; header-only: %s, %s'
+                     % (label, prog_text(small), cls[5], oa['status'], ['%s: %d lines' % (n, c.count('\n')) for n, c in oa['files'][:4]],
+                        ob['status'], ['%s: %d lines' % (n, c.count('\n')) for n, c in ob['files'][:4]]),
+                     rep, kind='header-only-process-behaviour-differs')
+    hist['program_runs_compared'] = len(progs) * len(variants)
+    hist['differences'] = n_diff
+    hist['builds'] = ['library'] + [l for l, _ in variants]
+    chk.cov['whole_process_programs'] = hist
+    chk.samples.append({'whole_process_program': prog_text(progs[0]), 'library': describe_obs(res[(0, -1)]), 'header_only_equal': not obs_diff(res[(0, -1)], res[(0, 0)])})
+    return len(progs) * len(variants)
 
 
 def two_tu_leg(chk, repo):
@@ -868,11 +1114,16 @@ def run():
     checked += 1 if multi_include_leg(chk, repo) else 0
     checked += layout_leg(chk, repo)
     # the two expensive legs run side by side (8 compiler processes + make -j8)
-    with concurrent.futures.ThreadPoolExecutor(max_workers=3) as ex2:
-        f_b = ex2.submit(behaviour_leg, chk)
+    with concurrent.futures.ThreadPoolExecutor(max_workers=4) as ex2:
         f_t = ex2.submit(two_tu_leg, chk, repo)
         f_c = ex2.submit(configuration_leg, chk, repo, thorough)
-        checked += f_b.result() + f_t.result()
+        try:        # one make invocation for every harness of the two behaviour legs (they report a failing build themselves)
+            build_variants([n for n in ('pattern', 'category', 'header_behaviour', 'header_exit') if os.path.exists(os.path.join(vlib.VERIF, 'harness', 'h_%s.cpp' % n))])
+        except RuntimeError:
+            pass
+        f_b = ex2.submit(behaviour_leg, chk)
+        f_p = ex2.submit(process_leg, chk)
+        checked += f_b.result() + f_t.result() + f_p.result()
         n_cfg = f_c.result()
     checked += n_cfg
     if thorough:
@@ -897,7 +1148,7 @@ def run():
                             'header alone and the library sources are compiled (-fsyntax-only) without and with every single feature macro the '
                             'sources test and must agree (quick: library files that mention the macro; thorough: all library files)',
                     'edits_applied': edit_kinds, 'exhaustive': False})
-    chk.samples = samples
+    chk.samples = samples + chk.samples
     return chk.finish()
 
 
